@@ -201,7 +201,26 @@ pub fn ctx_of(dbs: &Arc<Databases>) -> Option<Arc<NodeCtx>> {
     REGISTRY.lock().unwrap().iter().find(|(p, _)| *p == id).map(|(_, c)| c.clone())
 }
 
+/// Threads the code under test spawns itself (a transport's connection handlers) have no
+/// thread-local hook object; while a transport stage runs one node, that node's context answers
+/// for them (data directory, logical clock).
+static FALLBACK_CTX: Mutex<Option<Arc<NodeCtx>>> = Mutex::new(None);
+
+pub fn set_fallback_ctx(ctx: Option<Arc<NodeCtx>>) {
+    *FALLBACK_CTX.lock().unwrap() = ctx;
+}
+
+fn fallback() -> Option<Arc<NodeCtx>> {
+    FALLBACK_CTX.lock().ok().and_then(|g| g.clone())
+}
+
 impl Hooks for GlobalHooks {
+    fn data_dir(&self) -> Option<String> {
+        fallback().and_then(|c| c.data_dir())
+    }
+    fn now_nanos(&self) -> Option<u64> {
+        fallback().and_then(|c| c.now_nanos())
+    }
     fn link_takeover(
         &self,
         peer: &str,
